@@ -169,18 +169,17 @@ def run(ctx):
         v.judge(jobs)
         return jobs
 
-    jobs = stage('C07_corpus', corpus_jobs(ctx))
-    for j in jobs[:40:6]:
+    corpus = corpus_jobs(ctx)
+    if ctx.quick:
+        stage('C07_q', corpus + small_jobs(3, 4) + big_jobs(rng, 5, 24))
+    else:
+        stage('C07_t1', corpus + small_jobs(4, 5))
+        stage('C07_t2', big_jobs(rng, 40, 60))
+        stage('C07_t3', small_jobs(5, 6, names={'Add_ci_co', 'SignedAdd_ci_co', 'SignedSub', 'SignedDiv', 'SignedMul', 'ShiftRightA', 'ShiftRightW',
+                                                 'ShiftLeft', 'RotateLeft', 'RotateRight', 'Abs', 'CountLeadingZeros', 'BinaryToBCD'}))
+    for j in corpus[:40:6]:
         ctx.sample({'block': j.blk.name, 'W': v.wdict(j), 'input': j.inputs[0], 'impl': j.impl[0], 'model': j.model[0] if j.model else None,
                     'spec': j.spec[0] if j.spec else None})
-    if ctx.quick:
-        stage('C07_small', small_jobs(3, 4))
-        stage('C07_big', big_jobs(rng, 5, 24))
-    else:
-        stage('C07_small', small_jobs(4, 5))
-        stage('C07_big', big_jobs(rng, 40, 60))
-        stage('C07_small5', small_jobs(5, 6, names={'Add_ci_co', 'SignedAdd_ci_co', 'SignedSub', 'SignedDiv', 'SignedMul', 'ShiftRightA', 'ShiftRightW',
-                                                     'ShiftLeft', 'RotateLeft', 'RotateRight', 'Abs', 'CountLeadingZeros', 'BinaryToBCD'}))
     ctx.notes['distribution'] = ('exhaustive inputs for every legal mixed width combination up to %d-bit operands / %d-bit results; '
                                  'boundary values (0,1,2^(w-1)-1,2^(w-1),2^w-1,...) and random values on widths from %s (amount ports up to 7 bits)'
                                  % ((3, 4, B.BIG) if ctx.quick else (4, 5, B.BIG)))
